@@ -130,7 +130,7 @@ class Pipeline:
         if spec.names is not None:
             out.append(P('CustomSection', self.custom_reader({'name': S('name'), 'data': Opaque('name-section-bytes'), 'names': spec.names})))
         if spec.producers is not None:
-            out.append(P('CustomSection', self.custom_reader({'name': S('producers'), 'data': Opaque('producers-bytes'), 'producers': spec.producers})))
+            out.append(P('CustomSection', self.custom_reader({'name': S('producers'), 'data': Opaque('bytes:producers-section#%d' % (abs(hash(repr(spec.producers))) % 100000)), 'producers': spec.producers})))
         emit_customs('end')
         out.extend(spec.tail_payloads)
         out.append(P('End', usize(5000)))
@@ -266,6 +266,8 @@ class Pipeline:
             v = args[0]
             if isinstance(v, Ref):
                 v = I.read_ref(st, v)
+            if v.names and 'raw_results' in v.names:
+                return cont(st, IterVal('owned', None, 0, items=tuple(v.get('items').items)))
             cont(st, IterVal('owned', None, 0, items=tuple(ok(x) for x in v.get('items').items)))
         add(r'^<(wasmparser::)?SectionLimited<.*> as IntoIterator>::into_iter$|into_iter_err_on_gc_types$', m_sec_iter, 'SectionLimited iteration = the described items, each Ok')
 
@@ -350,9 +352,15 @@ class Pipeline:
             if name == 'name':
                 return cont(st, v.get('name'))
             if name == 'data':
-                if v.get('names') is not None or v.get('producers') is not None:
-                    return cont(st, Struct('SectionData', (v.get('data'), v.get('names'), v.get('producers')), ('data', 'names', 'producers')))
-                return cont(st, v.get('data'))
+                d = v.get('data')
+                prod = v.get('producers')
+                if prod is None and isinstance(d, Opaque) and d.name in PRODUCERS_REGISTRY:
+                    prod = PRODUCERS_REGISTRY[d.name]
+                if v.get('names') is not None or prod is not None:
+                    if prod is not None and isinstance(d, Opaque):
+                        PRODUCERS_REGISTRY[d.name] = prod
+                    return cont(st, Struct('SectionData', (d, v.get('names'), prod), ('data', 'names', 'producers')))
+                return cont(st, d)
             if name == 'data_offset':
                 return cont(st, usize(0))
             raise Inconclusive(c)
@@ -366,8 +374,14 @@ class Pipeline:
                 raise Inconclusive('reader over an undescribed payload: %r' % (rd,))
             if 'ProducersField' in c:
                 fields = src.get('producers')
-                items = [pl.mk('wasmparser::ProducersField', name=f, values=section([pl.mk('wasmparser::ProducersFieldValue', name=a, version=b) for a, b in vals])) for f, vals in fields]
-                return cont(st, ok(section(items)))
+                items = []
+                for ent in fields:
+                    if ent == 'ERR':
+                        items.append(err(Opaque('BinaryReaderError')))
+                    else:
+                        f, vals = ent
+                        items.append(ok(pl.mk('wasmparser::ProducersField', name=f, values=section([pl.mk('wasmparser::ProducersFieldValue', name=a, version=b) for a, b in vals]))))
+                return cont(st, ok(Struct('SectionLimited', (VecVal(items), z3.BoolVal(True)), ('items', 'raw_results'))))
             names = src.get('names')
             subs = []
             KINDS = {'functions': 'Function', 'types': 'Type', 'tables': 'Table', 'memories': 'Memory', 'globals': 'Global', 'elements': 'Element', 'data': 'Data', 'labels': 'Label'}
@@ -771,6 +785,9 @@ def run_gc(pl, st, mref):
     outs = []
     I.run(gc, [mref], st, lambda s, v: outs.append((s, v)))
     return outs
+
+
+PRODUCERS_REGISTRY = {}
 
 
 def _featset(v):
